@@ -273,8 +273,10 @@ pub open spec fn same_client(a: &Feig, b: &Feig) -> bool {
 pub open spec fn one_more(new: Seq<Exch>, old: Seq<Exch>) -> bool { new.len() == old.len() + 1 && extends(new, old) }
 
 impl Feig {
-    //@ fn src:zvt_feig_terminal/src/feig.rs | impl Feig | cancel_transaction_by_receipt_no | all-loops props=~C19,~C20
+    //@ fn src:zvt_feig_terminal/src/feig.rs | impl Feig | cancel_transaction_by_receipt_no | all-loops nexton=self.socket props=~C19,~C20
         ensures
+    //@ tag cancel_transaction_by_receipt_no.no_failed_connection_kept C09
+            clean(old(self)) ==> clean(final(self)),
     //@ tag cancel_by_receipt.state ~C19 ~C20 ~C07
             same_client(final(self), old(self)),
             one_more(final(self).socket.log(), old(self).socket.log()),
@@ -292,14 +294,20 @@ impl Feig {
                 self.socket.log().last().items matches AnyItems::PreAuthReversal(its) && cancel_fold(stream.rest()) == cancel_fold(its),
     //@ tag cancel_by_receipt.inv.abort C20
                 self.socket.log().last().items matches AnyItems::PreAuthReversal(its) && (pr_clean_abort(its, true) matches Some(c) ==> pr_clean_abort(stream.rest(), true) == Some(c)),
-            ensures stream.rest().len() == 0,
+    //@ tag cancel_transaction_by_receipt_no.inv.clean C09
+                clean(old(self)) ==> !self.socket.reused_bad(),
+    //@ tag cancel_transaction_by_receipt_no.loop.exit ~C09 ~C19 ~C20 ~C07 ~C08 ~C10 ~C18
+            ensures stream.rest().len() == 0, !self.socket.pending_drop(),
     //@ attr
     #[verifier::exec_allows_no_decreases_clause]
     //@ end
 
-    //@ fn src:zvt_feig_terminal/src/feig.rs | impl Feig | get_pending | all-loops props=C19
+    //@ fn src:zvt_feig_terminal/src/feig.rs | impl Feig | get_pending | all-loops nexton=self.socket props=C19
     //@ tag get_pending C19
         ensures
+    //@ tag get_pending.no_failed_connection_kept C09
+            clean(old(self)) ==> clean(final(self)),
+    //@ tag get_pending C19
             same_client(final(self), old(self)),
             one_more(final(self).socket.log(), old(self).socket.log()),
             final(self).socket.log().last().req matches Req::PartialReversal(q) && pending_query(q),
@@ -314,13 +322,18 @@ impl Feig {
                 one_more(self.socket.log(), old(self).socket.log()),
                 self.socket.log().last().req matches Req::PartialReversal(q) && pending_query(q),
                 self.socket.log().last().items matches AnyItems::PartialReversal(its) && pending_fold(stream.rest()) == pending_fold(its),
-            ensures stream.rest().len() == 0,
+    //@ tag get_pending.inv.clean C09
+                clean(old(self)) ==> !self.socket.reused_bad(),
+    //@ tag get_pending.loop.exit ~C09 ~C19 ~C20 ~C07 ~C08 ~C10 ~C18
+            ensures stream.rest().len() == 0, !self.socket.pending_drop(),
     //@ attr
     #[verifier::exec_allows_no_decreases_clause]
     //@ end
 
-    //@ fn src:zvt_feig_terminal/src/feig.rs | impl Feig | cancel_pending | all-loops props=C19
+    //@ fn src:zvt_feig_terminal/src/feig.rs | impl Feig | cancel_pending | all-loops nexton=self.socket props=C19
         ensures
+    //@ tag cancel_pending.no_failed_connection_kept C09
+            clean(old(self)) ==> clean(final(self)),
     //@ tag cancel_pending.state C07 ~C19
             final(self).transactions@ == Map::<Seq<char>, usize>::empty(),
             final(self).transactions_max_num == old(self).transactions_max_num,
@@ -341,10 +354,14 @@ impl Feig {
                 self.socket.log()[old(self).socket.log().len() as int].items matches AnyItems::PartialReversal(its_a) && pending_fold(its_a) == Result::<Seq<usize>>::Ok(pending@),
                 iter.index@ == 1 ==> (self.socket.log().last().req matches Req::PreAuthReversal(q2) && reversal_req(q2, old(self).socket.cfg(), pending@[0])),
                 iter.index@ == 1 ==> (self.socket.log().last().items matches AnyItems::PreAuthReversal(its_b) && cancel_fold(its_b) == Result::<()>::Ok(())),
+    //@ tag cancel_pending.inv.clean C09
+                clean(old(self)) ==> clean(self),
     //@ end
 
-    //@ fn src:zvt_feig_terminal/src/feig.rs | impl Feig | end_of_day | all-loops props=~C19,~C20,~C07
+    //@ fn src:zvt_feig_terminal/src/feig.rs | impl Feig | end_of_day | all-loops nexton=self.socket props=~C19,~C20,~C07
         ensures
+    //@ tag end_of_day.no_failed_connection_kept C09
+            clean(old(self)) ==> clean(final(self)),
     //@ tag end_of_day.state C07 ~C19
             final(self).transactions@ == Map::<Seq<char>, usize>::empty(),
             final(self).transactions_max_num == old(self).transactions_max_num,
@@ -376,13 +393,18 @@ impl Feig {
                 self.socket.log().last().items matches AnyItems::EndOfDay(its_c) && eod_fold(stream.rest()) == eod_fold(its_c),
     //@ tag end_of_day.inv.abort C19 C20
                 self.socket.log().last().items matches AnyItems::EndOfDay(its_c) && (eod_clean_abort(its_c) matches Some(c) ==> eod_clean_abort(stream.rest()) == Some(c)),
-            ensures stream.rest().len() == 0,
+    //@ tag end_of_day.inv.clean C09
+                clean(old(self)) ==> !self.socket.reused_bad(),
+    //@ tag end_of_day.loop.exit ~C09 ~C19 ~C20 ~C07 ~C08 ~C10 ~C18
+            ensures stream.rest().len() == 0, !self.socket.pending_drop(),
     //@ attr
     #[verifier::exec_allows_no_decreases_clause]
     //@ end
 
-    //@ fn src:zvt_feig_terminal/src/feig.rs | impl Feig | begin_transaction | all-loops props=C07
+    //@ fn src:zvt_feig_terminal/src/feig.rs | impl Feig | begin_transaction | all-loops nexton=self.socket props=C07
         ensures
+    //@ tag begin_transaction.no_failed_connection_kept C09
+            clean(old(self)) ==> clean(final(self)),
     //@ tag begin.frame C07
             final(self).transactions_max_num == old(self).transactions_max_num,
             final(self).socket.cfg() == old(self).socket.cfg(),
@@ -418,13 +440,18 @@ impl Feig {
                 self.socket.log().last().items matches AnyItems::Reservation(its) && last_receipt(stream.rest(), receipt_no) == last_receipt(its, None),
     //@ tag begin.inv.abort C20
                 self.socket.log().last().items matches AnyItems::Reservation(its) && (auth_clean_abort(its) matches Some(c) ==> auth_clean_abort(stream.rest()) == Some(c)),
-            ensures stream.rest().len() == 0,
+    //@ tag begin_transaction.inv.clean C09
+                clean(old(self)) ==> !self.socket.reused_bad(),
+    //@ tag begin_transaction.loop.exit ~C09 ~C19 ~C20 ~C07 ~C08 ~C10 ~C18
+            ensures stream.rest().len() == 0, !self.socket.pending_drop(),
     //@ attr
     #[verifier::exec_allows_no_decreases_clause]
     //@ end
 
-    //@ fn src:zvt_feig_terminal/src/feig.rs | impl Feig | cancel_transaction | all-loops props=C07
+    //@ fn src:zvt_feig_terminal/src/feig.rs | impl Feig | cancel_transaction | all-loops nexton=self.socket props=C07
         ensures
+    //@ tag cancel_transaction.no_failed_connection_kept C09
+            clean(old(self)) ==> clean(final(self)),
     //@ tag cancel.frame C07
             final(self).transactions_max_num == old(self).transactions_max_num,
             final(self).socket.cfg() == old(self).socket.cfg(),
@@ -478,8 +505,10 @@ impl Feig {
             }),
     //@ end
 
-    //@ fn src:zvt_feig_terminal/src/feig.rs | impl Feig | commit_transaction | all-loops optmap props=C07
+    //@ fn src:zvt_feig_terminal/src/feig.rs | impl Feig | commit_transaction | all-loops nexton=self.socket optmap props=C07
         ensures
+    //@ tag commit_transaction.no_failed_connection_kept C09
+            clean(old(self)) ==> clean(final(self)),
     //@ tag commit.frame C07
             final(self).transactions_max_num == old(self).transactions_max_num,
             final(self).socket.cfg() == old(self).socket.cfg(),
@@ -563,13 +592,18 @@ impl Feig {
                 self.socket.log().last().items matches AnyItems::PartialReversal(its) && (pr_clean_abort(its, false) matches Some(c) ==> pr_clean_abort(stream.rest(), false) == Some(c)),
     //@ tag commit.inv.noabort C19
                 self.socket.log().last().items matches AnyItems::PartialReversal(its) && ((all_ok_items(its) && pr_clean_abort(its, false) is None) ==> (all_ok_items(stream.rest()) && pr_clean_abort(stream.rest(), false) is None)),
-            ensures stream.rest().len() == 0,
+    //@ tag commit_transaction.inv.clean C09
+                clean(old(self)) ==> !self.socket.reused_bad(),
+    //@ tag commit_transaction.loop.exit ~C09 ~C19 ~C20 ~C07 ~C08 ~C10 ~C18
+            ensures stream.rest().len() == 0, !self.socket.pending_drop(),
     //@ attr
     #[verifier::exec_allows_no_decreases_clause]
     //@ end
 
-    //@ fn src:zvt_feig_terminal/src/feig.rs | impl Feig | read_card | all-loops strviews props=C10,~C18,~C20
+    //@ fn src:zvt_feig_terminal/src/feig.rs | impl Feig | read_card | all-loops nexton=self.socket strviews props=C10,~C18,~C20
         ensures
+    //@ tag read_card.no_failed_connection_kept C09
+            clean(old(self)) ==> clean(final(self)),
             same_client(final(self), old(self)),
             one_more(final(self).socket.log(), old(self).socket.log()),
     //@ tag read_card.request C10 C18
@@ -610,13 +644,18 @@ impl Feig {
                 self.socket.log().last().items matches AnyItems::ReadCard(its) && read_fold(stream.rest(), card_spec(card_info)) == read_fold(its, None),
     //@ tag read_card.inv.abort C20
                 self.socket.log().last().items matches AnyItems::ReadCard(its) && (abort_first(its) matches Some(c) ==> abort_first(stream.rest()) == Some(c)),
-            ensures stream.rest().len() == 0,
+    //@ tag read_card.inv.clean C09
+                clean(old(self)) ==> !self.socket.reused_bad(),
+    //@ tag read_card.loop.exit ~C09 ~C19 ~C20 ~C07 ~C08 ~C10 ~C18
+            ensures stream.rest().len() == 0, !self.socket.pending_drop(),
     //@ attr
     #[verifier::exec_allows_no_decreases_clause]
     //@ end
 
-    //@ fn src:zvt_feig_terminal/src/feig.rs | impl Feig | get_system_info | all-loops props=~C20
+    //@ fn src:zvt_feig_terminal/src/feig.rs | impl Feig | get_system_info | all-loops nexton=self.socket props=~C20
         ensures
+    //@ tag get_system_info.no_failed_connection_kept C09
+            clean(old(self)) ==> clean(final(self)),
             same_client(final(self), old(self)),
             one_more(final(self).socket.log(), old(self).socket.log()),
             final(self).socket.log().last().req matches Req::GetSystemInfo(q) && q.password is None && q.instr == 1,
@@ -635,13 +674,18 @@ impl Feig {
                 self.socket.log().last().items matches AnyItems::GetSystemInfo(its) && sysinfo_fold(stream.rest()) == sysinfo_fold(its),
     //@ tag get_system_info.inv.abort C20
                 self.socket.log().last().items matches AnyItems::GetSystemInfo(its) && (sysinfo_clean_abort(its) matches Some(c) ==> sysinfo_clean_abort(stream.rest()) == Some(c)),
-            ensures stream.rest().len() == 0,
+    //@ tag get_system_info.inv.clean C09
+                clean(old(self)) ==> !self.socket.reused_bad(),
+    //@ tag get_system_info.loop.exit ~C09 ~C19 ~C20 ~C07 ~C08 ~C10 ~C18
+            ensures stream.rest().len() == 0, !self.socket.pending_drop(),
     //@ attr
     #[verifier::exec_allows_no_decreases_clause]
     //@ end
 
-    //@ fn src:zvt_feig_terminal/src/feig.rs | impl Feig | initialize | all-loops props=~C20
+    //@ fn src:zvt_feig_terminal/src/feig.rs | impl Feig | initialize | all-loops nexton=self.socket props=~C20
         ensures
+    //@ tag initialize.no_failed_connection_kept C09
+            clean(old(self)) ==> clean(final(self)),
             same_client(final(self), old(self)),
             one_more(final(self).socket.log(), old(self).socket.log()),
             final(self).socket.log().last().req matches Req::Initialization(q) && q.password == old(self).socket.cfg().feig_config.password,
@@ -657,13 +701,18 @@ impl Feig {
                 self.socket.log().last().items matches AnyItems::Initialization(its) && init_fold(stream.rest()) == init_fold(its),
     //@ tag initialize.inv.abort C20
                 self.socket.log().last().items matches AnyItems::Initialization(its) && (init_clean_abort(its) matches Some(c) ==> init_clean_abort(stream.rest()) == Some(c)),
-            ensures stream.rest().len() == 0,
+    //@ tag initialize.inv.clean C09
+                clean(old(self)) ==> !self.socket.reused_bad(),
+    //@ tag initialize.loop.exit ~C09 ~C19 ~C20 ~C07 ~C08 ~C10 ~C18
+            ensures stream.rest().len() == 0, !self.socket.pending_drop(),
     //@ attr
     #[verifier::exec_allows_no_decreases_clause]
     //@ end
 
-    //@ fn src:zvt_feig_terminal/src/feig.rs | impl Feig | set_terminal_id | all-loops props=~C20
+    //@ fn src:zvt_feig_terminal/src/feig.rs | impl Feig | set_terminal_id | all-loops nexton=self.socket props=~C20
         ensures
+    //@ tag set_terminal_id.no_failed_connection_kept C09
+            clean(old(self)) ==> clean(final(self)),
             same_client(final(self), old(self)),
             extends(final(self).socket.log(), old(self).socket.log()),
     //@ tag set_terminal_id.abort_surfaces C20
@@ -701,13 +750,18 @@ impl Feig {
                 self.socket.log().last().items matches AnyItems::SetTerminalId(its1) && settid_fold(stream.rest()) == settid_fold(its1),
     //@ tag set_terminal_id.inv.abort C20
                 self.socket.log().last().items matches AnyItems::SetTerminalId(its1) && (settid_clean_abort(its1) matches Some(c) ==> settid_clean_abort(stream.rest()) == Some(c)),
-            ensures stream.rest().len() == 0,
+    //@ tag set_terminal_id.inv.clean C09
+                clean(old(self)) ==> !self.socket.reused_bad(),
+    //@ tag set_terminal_id.loop.exit ~C09 ~C19 ~C20 ~C07 ~C08 ~C10 ~C18
+            ensures stream.rest().len() == 0, !self.socket.pending_drop(),
     //@ attr
     #[verifier::exec_allows_no_decreases_clause]
     //@ end
 
-    //@ fn src:zvt_feig_terminal/src/feig.rs | impl Feig | configure | all-loops props=~C20
+    //@ fn src:zvt_feig_terminal/src/feig.rs | impl Feig | configure | all-loops nexton=self.socket props=~C20
         ensures
+    //@ tag configure.no_failed_connection_kept C09
+            clean(old(self)) ==> clean(final(self)),
             final(self).transactions_max_num == old(self).transactions_max_num,
             final(self).socket.cfg() == old(self).socket.cfg(),
             extends(final(self).socket.log(), old(self).socket.log()),
